@@ -597,8 +597,11 @@ func init() {
 							return want && isCallNamed(cnd, "reflect.Type.ConvertibleTo", "(reflect.Value).CanConvert") != nil
 						})
 						if !ok {
-							// target type restricted by a Kind() test (conversion between basic kinds of the same family)
-							ok = ko.factAt(site, target, 2) != allKinds
+							// target type restricted by a Kind() test to basic kinds (conversion between basic kinds of
+							// one family); a target of kind Interface, Struct, Map, … accepts a value only when the value's
+							// own type fits, which a Kind() test of the target does not establish
+							ks := ko.factAt(site, target, 2)
+							ok = ks != allKinds && ks&^kindsOf("Bool", "Int", "Int8", "Int16", "Int32", "Int64", "Uint", "Uint8", "Uint16", "Uint32", "Uint64", "Uintptr", "Float32", "Float64", "String") == 0
 						}
 						c.check(ok, key(), p.instrPos(site), "Convert is guarded by ConvertibleTo or a Kind() test of the target type",
 							"Convert without a ConvertibleTo()/Kind() guard on the target type")
@@ -960,6 +963,19 @@ func fileCycleGuarded(p *Prog, comp []*ssa.Function, in map[*ssa.Function]bool) 
 // dataCycleGuarded: the recursive function carries a visited-set parameter (map) that is consulted in
 // a guard leading to a return and updated before the recursive call, or an int depth compared with a constant.
 func dataCycleGuarded(p *Prog, comp []*ssa.Function, in map[*ssa.Function]bool) (bool, string) {
+	// a parameter that a closure of the function captures (the body of a range-over-func loop) lives in a
+	// cell: its uses are loads of that cell
+	is := func(v ssa.Value, prm *ssa.Parameter) bool {
+		if v == ssa.Value(prm) {
+			return true
+		}
+		for _, o := range p.origins(v, OriginOpts{}) {
+			if o == ssa.Value(prm) {
+				return true
+			}
+		}
+		return false
+	}
 	for _, f := range comp {
 		for _, prm := range f.Params {
 			if _, ok := prm.Type().Underlying().(*types.Map); ok {
@@ -967,7 +983,7 @@ func dataCycleGuarded(p *Prog, comp []*ssa.Function, in map[*ssa.Function]bool) 
 				eachInstr(f, func(inr ssa.Instruction) {
 					switch x := inr.(type) {
 					case *ssa.Lookup:
-						if x.X == prm {
+						if is(x.X, prm) {
 							// result used in an If leading to a return
 							if flowsTo(x, func(u ssa.Instruction, _ ssa.Value) bool {
 								ifi, ok := u.(*ssa.If)
@@ -987,7 +1003,7 @@ func dataCycleGuarded(p *Prog, comp []*ssa.Function, in map[*ssa.Function]bool) 
 							}
 						}
 					case *ssa.MapUpdate:
-						if x.Map == prm {
+						if is(x.Map, prm) {
 							updated = true
 						}
 					}
@@ -1035,7 +1051,7 @@ func dataCycleGuarded(p *Prog, comp []*ssa.Function, in map[*ssa.Function]bool) 
 						return
 					}
 					bo, ok := ifi.Cond.(*ssa.BinOp)
-					if !ok || bo.X != prm || !(bo.Op == token.GTR || bo.Op == token.GEQ) {
+					if !ok || !is(bo.X, prm) || !(bo.Op == token.GTR || bo.Op == token.GEQ) {
 						return
 					}
 					if _, isC := constInt(bo.Y); !isC {
@@ -1071,7 +1087,7 @@ func dataCycleGuarded(p *Prog, comp []*ssa.Function, in map[*ssa.Function]bool) 
 						continue // another function of the cycle: its own parameter is judged there
 					}
 					inc, ok := args[pi].(*ssa.BinOp)
-					if !ok || inc.Op != token.ADD || inc.X != ssa.Value(prm) {
+					if !ok || inc.Op != token.ADD || !is(inc.X, prm) {
 						grows = false
 						continue
 					}
